@@ -136,14 +136,23 @@ func sessionRun(args []string) int {
 	for id, f := range sessTypes {
 		types[id] = f()
 	}
+	touched5 := false
 	for _, c := range hist {
-		if c.C == "use" {
+		if c.C == "use" && c.T == 5 {
+			touched5 = true
+			sessFillerProbe(c.How)
+		} else if c.C == "use" {
 			sessUse(types[c.T], c.How)
 		} else if c.C == "fill" {
 			sessFill(2200)
 		} else {
 			var ts []reflect.Type
 			for _, id := range c.S {
+				if id == 5 {
+					touched5 = true
+					ts = append(ts, sessFillers()...)
+					continue
+				}
 				ts = append(ts, types[id].rt)
 			}
 			if err := sonic.PretouchMany(ts, option.WithCompileRecursiveDepth(c.D)); err != nil {
@@ -160,10 +169,68 @@ func sessionRun(args []string) int {
 		b, err := sonic.Marshal(types[id].val())
 		probe[fmt.Sprintf("%d.m.default", id)] = fmt.Sprintf("%s|%v", b, err)
 	}
+	if touched5 || len(hist) == 0 {
+		for _, how := range []string{"m", "u"} {
+			probe["5."+how] = sessFillerProbe(how)
+		}
+	}
 	probe["names"] = fmt.Sprint(types[1].rt.String(), " ", types[2].rt.String(), " same:", types[1].rt == types[2].rt)
 	b, _ := json.Marshal(probe)
 	os.Stdout.Write(b)
 	return 0
+}
+
+// type 5 of the model: a class of several hundred unrelated types (same layout, different keys), built
+// identically in every process
+var sessFillerTypes []reflect.Type
+
+func sessFillers() []reflect.Type {
+	if sessFillerTypes == nil {
+		for i := 0; i < 560; i++ {
+			sessFillerTypes = append(sessFillerTypes, reflect.StructOf([]reflect.StructField{
+				{Name: "V", Type: reflect.TypeOf(0), Tag: reflect.StructTag(fmt.Sprintf(`json:"k%04d"`, i))},
+				{Name: "S", Type: reflect.TypeOf(""), Tag: reflect.StructTag(fmt.Sprintf(`json:"s%04d"`, i))}}))
+		}
+	}
+	return sessFillerTypes
+}
+
+// sessFillerProbe uses every filler type once and returns a digest of the results.
+func sessFillerProbe(how string) string {
+	h := fnvNew()
+	bad := 0
+	for i, t := range sessFillers() {
+		p := reflect.New(t)
+		if how == "u" {
+			doc := fmt.Sprintf(`{"k%04d":%d,"s%04d":"v%d"}`, i, i+1, i, i)
+			err := sonic.ConfigStd.Unmarshal([]byte(doc), p.Interface())
+			b, _ := json.Marshal(p.Interface())
+			if err != nil || string(b) != doc {
+				bad++
+			}
+			h.add(b)
+		} else {
+			p.Elem().Field(0).SetInt(int64(i + 1))
+			p.Elem().Field(1).SetString(fmt.Sprint("v", i))
+			b, err := sonic.ConfigStd.Marshal(p.Interface())
+			want, _ := json.Marshal(p.Interface())
+			if err != nil || string(b) != string(want) {
+				bad++
+			}
+			h.add(b)
+		}
+	}
+	return fmt.Sprintf("digest=%x wrong=%d", h.sum, bad)
+}
+
+type fnv struct{ sum uint64 }
+
+func fnvNew() *fnv { return &fnv{14695981039346656037} }
+func (f *fnv) add(b []byte) {
+	for _, c := range b {
+		f.sum ^= uint64(c)
+		f.sum *= 1099511628211
+	}
 }
 
 // sessFill compiles n unrelated fresh types in both directions: the program caches (initial capacity
@@ -287,7 +354,7 @@ func sessionMain(args []string) int {
 				}
 				var diff []string
 				for k, v := range base {
-					if probe[k] != v {
+					if pv, ok := probe[k]; ok && pv != v {
 						diff = append(diff, k)
 					}
 				}
@@ -308,8 +375,8 @@ func sessionMain(args []string) int {
 		}()
 	}
 	perr := tlaval.ReadStates(f, func(n int, hdr string, st tlaval.State) error {
-		if *stride > 1 && (n+int(*seed))%*stride != 0 {
-			return nil
+		if *stride > 1 && (n+int(*seed))%*stride != 0 && len(tlaval.Seq(st["hist"])) > 1 {
+			return nil // histories of length 1 are always replayed, longer ones by stride
 		}
 		var h []sessCall
 		for _, c := range tlaval.Seq(st["hist"]) {
